@@ -56,7 +56,7 @@ type alertCase struct {
 	Org       int64       `json:"org"`
 	N         int         `json:"n"`        // evaluation window / interval
 	Interval  int         `json:"interval"` // minutes
-	Cooldown  int64       `json:"cooldown"` // minutes: 0, 1, 1e6
+	Cooldown  int64       `json:"cooldown"` // minutes: 0, 5, 1e6
 	Shape     string      `json:"shape"`    // sum | sumas | grouped | count | metric | metric2
 	Cond      int         `json:"cond"`
 	Threshold float64     `json:"threshold"`
@@ -142,7 +142,7 @@ func genAlertCase(t *rapid.T) *alertCase {
 	c.Org = rapid.SampledFrom([]int64{0, 0, 1, 2}).Draw(t, "org")
 	c.N = rapid.SampledFrom([]int{1, 2, 2, 3, 3, 4, 5}).Draw(t, "n")
 	c.Interval = rapid.IntRange(1, 3).Draw(t, "interval")
-	c.Cooldown = rapid.SampledFrom([]int64{0, 0, 1, 1000000}).Draw(t, "cooldown")
+	c.Cooldown = rapid.SampledFrom([]int64{0, 0, 5, 1000000}).Draw(t, "cooldown")
 	c.Shape = rapid.SampledFrom([]string{"sum", "sumas", "grouped", "grouped", "count", "metric", "metric2"}).Draw(t, "shape")
 	c.Cond = rapid.SampledFrom([]int{0, 0, 1, 1, 2, 3, 4}).Draw(t, "cond")
 	c.Groups = 1
@@ -234,6 +234,9 @@ type alertDriver struct {
 	exists  []bool    // the group / timestamp has at least one event / point
 	evSeq   int       // ingested events / series so far
 	message string
+
+	timedOut bool // a worker command timed out (the worker is killed then)
+	abnormal bool // the last observe() found the query answering abnormally
 }
 
 func (d *alertDriver) opts() sut.Options {
@@ -254,11 +257,15 @@ func (d *alertDriver) wrap(what string, err error) error {
 	if err == nil {
 		return nil
 	}
-	if errors.Is(err, sut.ErrWorkerDied) {
-		return fmt.Errorf("%s: server process died: %s", what, pt.CrashDetail(d.c))
-	}
 	if errors.Is(err, sut.ErrTimeout) {
+		d.timedOut = true // the client kills the worker after a timeout
 		return pt.Inconclusivef("%s: worker command timed out", what)
+	}
+	if errors.Is(err, sut.ErrWorkerDied) {
+		if d.timedOut {
+			return pt.Inconclusivef("%s: worker was killed after a command timeout", what)
+		}
+		return fmt.Errorf("%s: server process died: %s", what, pt.CrashDetail(d.c))
 	}
 	return fmt.Errorf("%s: %w", what, err)
 }
@@ -357,12 +364,14 @@ func bulkLine(index string, ts uint64, fields string) string {
 // observe runs the alert's own query and returns the result values the condition is applied to.
 func (d *alertDriver) observe() ([]float64, error) {
 	var vals []float64
+	d.abnormal = false
 	if d.isMetric() {
 		var r metricsQueryResult
 		if err := d.c.Call(&sut.Req{Op: "c20.metricsQuery", Org: d.cs.Org, Body: []byte(d.metricsParams())}, &r); err != nil {
 			return nil, d.wrap("metrics query", err)
 		}
 		if r.Err != "" || r.Scalar {
+			d.abnormal = true
 			return nil, pt.Inconclusivef("metrics query of the alert did not answer normally: %+v", r)
 		}
 		if len(r.Errs) > 0 {
@@ -382,6 +391,7 @@ func (d *alertDriver) observe() ([]float64, error) {
 		return nil, d.wrap("search", err)
 	}
 	if sr.Err != "" || len(sr.Errors) > 0 || sr.Nil {
+		d.abnormal = true
 		return nil, pt.Inconclusivef("query of the alert did not answer normally: %s", sr)
 	}
 	for _, b := range sr.Measure {
@@ -409,7 +419,7 @@ func (d *alertDriver) waitDataBack(want []float64) (bool, error) {
 	for {
 		got, err := d.observe()
 		if err != nil {
-			if _, inc := err.(*pt.Inconclusive); !inc {
+			if !d.abnormal { // anything but "the query answered with an error" (not loaded yet) ends the case
 				return false, err
 			}
 		} else if sameMultiset(got, want) {
@@ -920,8 +930,8 @@ func (d *alertDriver) afterEvaluation(m *alertModel, what string, target, obsVal
 	// notifications
 	newPosts := posts[m.posts:]
 	over := m.cooldownOver()
-	if m.cooldown == 1 && m.everSent && !m.aged && time.Since(m.sentAt) > 20*time.Second {
-		return pt.Inconclusivef("case ran too slowly for the one-minute cool-down to be certainly pending")
+	if m.cooldown == 5 && m.everSent && !m.aged && time.Since(m.sentAt) > 2*time.Minute {
+		return pt.Inconclusivef("case ran too slowly for the five-minute cool-down to be certainly pending")
 	}
 	must, mustNot := false, false
 	zone := ""
